@@ -140,7 +140,7 @@ impl<'r> Fam<'r> {
 				Ty::Ptr(self.rng.gen_range(0..3), Box::new(self.ty(depth + 1, me, param, in_union)))
 			} else if r < 74 && param {
 				Ty::Param(0)
-			} else if r < 80 && me.is_some() {
+			} else if r < 80 && me.is_some() && !param {
 				// recursion
 				match self.rng.gen_range(0..3) {
 					0 => Ty::Option(Box::new(Ty::Ptr(0, Box::new(Ty::Named(me.unwrap(), vec![]))))),
@@ -207,8 +207,19 @@ impl<'r> Fam<'r> {
 		Field { name, ty: self.ty(0, me, param, false), attr: None }
 	}
 
-	fn short_name(&self, j: usize) -> String {
-		self.decls[j].name_override.clone().unwrap_or_else(|| self.decls[j].ident.clone())
+	fn module_path(&self) -> String {
+		format!("derive_gen.generated.f{}", self.k)
+	}
+	/// the Avro fullname of a declared record / enum: the deserializer announces a named branch
+	/// of a union under its fullname
+	fn full_name(&self, j: usize) -> String {
+		let d = &self.decls[j];
+		let ident = d.name_override.clone().unwrap_or_else(|| d.ident.clone());
+		match &d.ns {
+			None => format!("{}.{}", self.module_path(), ident),
+			Some(ns) if ns.is_empty() => ident,
+			Some(ns) => format!("{ns}.{ident}"),
+		}
 	}
 
 	fn decl(&mut self, i: usize, force_record: bool) {
@@ -261,7 +272,7 @@ impl<'r> Fam<'r> {
 			];
 			for j in 0..self.decls.len() {
 				if self.decls[j].nparams == 0 && matches!(self.decls[j].body, Body::Record(_) | Body::UnitEnum(_)) {
-					cands.push((self.short_name(j), Field { name: "0".into(), ty: Ty::Named(j, vec![]), attr: None }));
+					cands.push((self.full_name(j), Field { name: "0".into(), ty: Ty::Named(j, vec![]), attr: None }));
 				}
 			}
 			// fixed payloads are named after the variant
@@ -276,7 +287,16 @@ impl<'r> Fam<'r> {
 					break;
 				}
 				let ident = format!("V{}", vs.len());
-				let serde = if serde.is_empty() { ident.clone() } else { serde };
+				// a fixed payload is named `<namespace>.<Enum>.<Variant>`
+				let serde = if serde.is_empty() {
+					match &ns {
+						None => format!("{}.{}.{}", self.module_path(), ident_base, ident),
+						Some(ns) if ns.is_empty() => format!("{ident_base}.{ident}"),
+						Some(ns) => format!("{ns}.{ident_base}.{ident}"),
+					}
+				} else {
+					serde
+				};
 				if seen.contains(&serde) {
 					continue;
 				}
@@ -476,7 +496,7 @@ fn rust_decl(d: &Decl, decls: &[Decl]) -> String {
 			s.push_str(&format!("\tpub enum {} {{ {} }}\n", d.ident, vs.join(", ")));
 		}
 		Body::Union(vs) => {
-			s.push_str(&format!("\tpub enum {} {{\n", d.ident));
+			s.push_str(&format!("\tpub enum {}{} {{\n", d.ident, generics));
 			for (ident, serde, f) in vs {
 				s.push_str(&format!("\t\t#[serde(rename = {:?})] ", serde));
 				match f {
@@ -655,12 +675,37 @@ fn hand_families() -> Vec<(Vec<Decl>, Ty)> {
 					body: Body::Union(vec![
 						("Nothing".into(), "Null".into(), None),
 						("V0".into(), "String".into(), Some(f("0", Ty::String))),
-						("V1".into(), "T0".into(), Some(f("0", Ty::Named(0, vec![])))),
+						("V1".into(), "derive_gen.generated.f2.T0".into(), Some(f("0", Ty::Named(0, vec![])))),
 					]),
 				},
 				rec("T2", 0, None, vec![f("f0", Ty::Named(1, vec![])), f("f1", Ty::Vec(Box::new(Ty::Named(1, vec![]))))]),
 			],
 			Ty::Named(2, vec![]),
+		),
+		// a record with an owned sub-node, used plainly and duplicated for a logical type
+		(
+			vec![
+				rec("T0", 0, None, vec![f("f0", Ty::I32), fl("f1", Ty::ByteArray(4), "crc32")]),
+				rec("T1", 0, None, vec![f("f0", Ty::Named(0, vec![])), fl("f1", Ty::Named(0, vec![]), "my-custom-type")]),
+			],
+			Ty::Named(1, vec![]),
+		),
+		// a generic enum with a fixed payload, instantiated twice
+		(
+			vec![
+				Decl {
+					ident: "T0".into(),
+					name_override: None,
+					ns: None,
+					nparams: 1,
+					body: Body::Union(vec![
+						("V0".into(), "derive_gen.generated.f4.T0.V0".into(), Some(f("0", Ty::ByteArray(4)))),
+						("V1".into(), "Array".into(), Some(f("0", Ty::Vec(Box::new(Ty::Param(0)))))),
+					]),
+				},
+				rec("T1", 0, None, vec![f("f0", Ty::Named(0, vec![Ty::I32])), f("f1", Ty::Named(0, vec![Ty::String]))]),
+			],
+			Ty::Named(1, vec![]),
 		),
 		// recursion and sharing
 		(
